@@ -8,18 +8,31 @@ from common import prove, driver
 
 P = "Matid.Props.C13."
 THEOREMS = [P + t for t in ("fresh_init", "fresh_step", "getDim_fresh", "fresh_run", "getDim_correct", "stale_cache_witness",
-                            "source_invalidates", "source_forwards_radii")]
+                            "source_invalidates", "source_forwards_radii", "constructors_forward_radii")]
 TRUSTED = ["Lean 4 kernel", "axioms: propext, Classical.choice, Quot.sound at most (audited per run)",
            "tools/gen_cluster_rule.py (AST: cache fill, setter invalidation, radii forwarding)",
            "hand-written state machine MatidModel/ClusterCache.lean tied by operation histories on the real class",
            "the matrix path and the fresh path of get_dimensionality agree on the same atoms (sampled on every cluster, part of the end-to-end oracle)"]
 
 
-def sbc_family(rng, k):
+def sbc_family(rng, k, thin_gap=False):
     """inputs on which merging / localisation / outlier removal really drop atoms"""
     from ase.build import bulk, fcc100
     from ase import Atoms
-    kind = k % 6
+    kind = k % 8
+    if kind >= 6:        # substituted / defective periodic crystals: overlapping regions that get MERGED
+        from ase.build import bulk as _bulk
+        el, st, lat, sub = [("Si", "diamond", 5.43, 32), ("Cu", "fcc", 3.6, 47), ("NaCl", "rocksalt", 5.64, 19), ("Al", "fcc", 4.05, 31)][int(rng.integers(0, 4))]
+        a = _bulk(el, st, a=lat, cubic=True) * (3, 3, 2)
+        z = a.get_atomic_numbers()
+        z[rng.choice(len(a), max(2, int(len(a) * rng.uniform(0.05, 0.2))), replace=False)] = sub
+        a.set_atomic_numbers(z)
+        if kind == 7:    # slab: vacuum along c, still periodic
+            c = np.array(a.get_cell()); c[2, 2] += float(rng.uniform(0.5, 4.0) if thin_gap else rng.uniform(3.0, 9.0)); a.set_cell(c)
+        a.set_pbc([True, True, bool(rng.integers(0, 2)) or kind == 6 or thin_gap])
+        if rng.random() < 0.5:
+            a = a[rng.permutation(len(a))]
+        return a, ("substituted-bulk", "substituted-slab")[kind - 6]
     if kind == 0:        # finite crystallite with a detached atom
         a = bulk("Cu", "fcc", a=3.6, cubic=True) * (3, 3, 3)
         a.set_pbc(False)
@@ -69,7 +82,7 @@ def histories(ctx, n_hist):
     rng = np.random.default_rng(ctx.seed + 13)
     lines, runs = [], []
     for h in range(n_hist):
-        a, kind = sbc_family(rng, int(rng.integers(0, 6)))
+        a, kind = sbc_family(rng, int(rng.integers(0, 8)))
         if len(a) > 70:
             a = a[[int(i) for i in rng.choice(len(a), 70, replace=False)]]
         preset = ["covalent", "vdw", None][h % 3]
@@ -139,17 +152,18 @@ def histories(ctx, n_hist):
     return mism
 
 
-def oracle_clusters(ctx, n_runs):
-    """the property on clusters returned by the real get_clusters"""
+def oracle_clusters(ctx, n_runs, directed=False):
+    """the property on clusters returned by the real get_clusters; `directed`: only inputs whose clusters come out of a merge,
+    with non-covalent radii and a periodic gap that is bonded with those radii only (used when the proof/correspondence is broken)"""
     import matid.geometry as G
     from matid.clustering import SBC
     import crystals
     rng = np.random.default_rng(ctx.seed + 1313)
     bad = []
-    dropped = 0
+    dropped = merged = 0
     for k in range(n_runs):
-        a, kind = sbc_family(rng, k)
-        preset = ["covalent", "vdw", "custom"][k % 3]
+        a, kind = sbc_family(rng, (7 if k % 4 else 6) if directed else k, thin_gap=directed)
+        preset = ["vdw", "vdw", "custom"][k % 3] if directed else ["covalent", "vdw", "custom"][k % 3]
         thr = float(rng.uniform(0.4, 1.0))
         if preset == "custom":
             radii_arg = G.get_radii("covalent", a.get_atomic_numbers()) * float(rng.uniform(0.9, 1.3))
@@ -159,11 +173,13 @@ def oracle_clusters(ctx, n_runs):
                 radii_arg = "covalent"
         radii_full = G.get_radii(radii_arg, a.get_atomic_numbers())
         try:
-            clusters = SBC().get_clusters(a, radii=radii_arg, bond_threshold=thr, seed=int(rng.integers(0, 100)))
+            extra = {"merge_threshold": float(rng.uniform(0.1, 0.5))} if kind.startswith("substituted") else {}
+            clusters = SBC().get_clusters(a, radii=radii_arg, bond_threshold=thr, seed=int(rng.integers(0, 100)), **extra)
         except ValueError:
             continue
         ctx.count("sbc_" + kind)
         for c in clusters:
+            merged += bool(getattr(c, "_merged", False))
             ctx.case(("cluster", k, kind, tuple(sorted(c.indices))), nontrivial=len(c.indices) > 1)
             try:
                 d1 = c.get_dimensionality()
@@ -178,15 +194,16 @@ def oracle_clusters(ctx, n_runs):
             if d1 != fresh or d1 != d2:
                 bad.append({"kind": kind, "complaint": "shortcut %s (repeated %s), fresh evaluation %s" % (d1, d2, fresh), "atoms": crystals.atoms_to_json(a),
                             "radii": str(radii_arg) if isinstance(radii_arg, str) else np.asarray(radii_arg).tolist(), "bond_threshold": thr,
-                            "indices": [int(i) for i in c.indices]})
+                            "indices": [int(i) for i in c.indices], "extra": extra, "merged": bool(getattr(c, "_merged", False))})
     ctx.coverage["clusters_that_lost_atoms_after_tracking"] = dropped
+    ctx.coverage["clusters_produced_by_a_merge"] = merged
     return bad
 
 
 def run(ctx):
     common.install_matid()
     broken = []
-    terr = common.regen(ctx, ("cluster_rule",))
+    terr = common.regen(ctx, ("cluster_rule", "sbc_rule"))
     if terr:
         for t in THEOREMS:
             ctx.obligations.append((t, False))
@@ -204,7 +221,9 @@ def run(ctx):
         broken.append(("translator", {"error": repr(e)}))
     if mism:
         broken.append(("correspondence", {"count": len(mism), "mismatches": mism[:5]}))
-    bad = oracle_clusters(ctx, ctx.n(36, 900))
+    bad = oracle_clusters(ctx, ctx.n(64, 1600))
+    if broken and not bad:
+        bad = oracle_clusters(ctx, ctx.n(90, 900), directed=True)
     seen = set()
     for b in bad:
         key = "%s:%s" % (b["kind"], b["complaint"][:30])
@@ -232,7 +251,7 @@ def replay(path):
     if "atoms" in c:
         a = crystals.atoms_from_json(c["atoms"])
         rad = c["radii"] if isinstance(c["radii"], str) and c["radii"] != "custom" else np.array(c["radii"]) if not isinstance(c["radii"], str) else "covalent"
-        for cl in SBC().get_clusters(a, radii=rad, bond_threshold=c["bond_threshold"]):
+        for cl in SBC().get_clusters(a, radii=rad, bond_threshold=c["bond_threshold"], **c.get("extra", {})):
             full = G.get_radii(rad, a.get_atomic_numbers())
             print(len(cl.indices), "shortcut", cl.get_dimensionality(), "fresh", G.get_dimensionality(cl.get_atoms(), c["bond_threshold"], radii=np.asarray(full)[cl.indices]))
     print(r.get("what"))
